@@ -63,6 +63,24 @@ def reader_inputs(rnd, tier):
             ("deep-parens", b"real x; x == " + b"(" * 2000 + b"1" + b")" * 2000 + b";"), ("deep-unary", b"real x; x == " + b"-" * 2000 + b"1;"),
             ("deep-blocks", b"{" * 500 + b"real x;" + b"}" * 500), ("deep-nested-classes", b"".join(b"class C%d {" % i for i in range(300)) + b"}" * 300),
             ("keyword-soup", b"class class predicate goal fact new or this void return"), ("dangling-new", b"real x = new ;"), ("cast-soup", b"real x = (a.b.c) (d) e;")]
+    # syntactically fine, semantically wrong or unsupported: must end in a reported error (or be accepted), never in terminate / a crash
+    decls = ["real r; real s;", "int i; int j;", "bool b; bool c;", "tp t; tp u;", "class A { real w; A() {} real f(real x) { return x + w; } bool g() { return w > 0.0; } } A a = new A(); A a2 = new A(); A av;",
+             "enum E {\"x\", \"y\"}; E e; E e2;", "predicate P(real q) { } class S : StateVariable { predicate Q() { } } S sv = new S();", "ReusableResource rr = new ReusableResource(3.0);"]
+    terms = ["r", "s", "i", "j", "b", "c", "t", "u", "a", "a2", "av", "a.w", "av.w", "e", "e2", "sv", "rr", "rr.capacity", "1", "2.5", "true", "\"x\"", "a.f(1.0)", "a.g()", "a.f(b)", "a.f()", "a.nothing", "zz", "t + u", "2 * t",
+             "t * u", "t / 2", "r * s", "r / s", "r / 0", "i / 0.0", "-t", "t - u - t", "b + 1", "e + 1", "a + a2"]
+    rels = ["==", "!=", "<", "<=", ">", ">=", "&", "|", "^", "->"]
+    sem = ["tp a; tp b; a + b <= 5.0;", "tp a; 2 * a <= 3.0;", "tp a; tp b; tp c; a - b + c <= 1.0;", "tp a; tp b; a - b == b - a;", "tp a; real r; a <= r;", "tp a; real r; r == 2.0; a - r <= 1.0;",
+           "class M { real v; M() { v == inc(2.0); } real inc(real x) { return x + 1.0; } } M m = new M(); m.v >= 3.0;",
+           "class M { real v; M() { v == inc(2); } real inc(real x) { return x + 1.0; } } M m = new M();", "class M { void h() { } M() { h(); } } M m = new M();",
+           "class M { real f(real x) { return f(x); } real v; M() { v == 1.0; } } M m = new M();", "goal g = new Nothing();", "real r; goal g = new r.P();", "predicate P() { } fact f = new P(z:1.0);",
+           "class A { } A a = new A(1.0);", "class A { A(real x) { } } A a = new A();", "class A : A { }", "class A : B { } class B : A { }", "enum E {\"x\"} | F; enum F {\"y\"} | E; E e;",
+           "real r = true;", "bool b = 1.0;", "real r; r.x == 1.0;", "class A { real w; } A a; a.w.w == 1.0;", "real r; real r;", "class A { } class A { }", "predicate P() { } predicate P() { }"]
+    for p in sem:
+        out.append(("semantic-error", p.encode()))
+    for i in range(60 if tier == "quick" else 1500):
+        k = rnd.randint(1, 3)
+        prog = " ".join(rnd.sample(decls, rnd.randint(2, 5))) + " " + " ".join("%s %s %s;" % (rnd.choice(terms), rnd.choice(rels), rnd.choice(terms)) for _ in range(k))
+        out.append(("semantic-soup", prog.encode()))
     for i in range(40 if tier == "quick" else 400):
         n = rnd.randint(1, 60)
         out.append(("random-bytes", bytes(rnd.randrange(256) for _ in range(n))))
